@@ -39,6 +39,19 @@ def run_property(prop: str, tier: str, seed: int = 0) -> int:
         tb = traceback.format_exc()
         rep.error("internal", type(e).__name__, f"{e}\n{tb}")
     consulted = repo.consulted if repo is not None else {}
+    if tier == "thorough" and not any(f.status in (report.VIOLATION, report.ERROR) for f in rep.findings):
+        # thorough = the same rules + the checker's own two-sided self-test for this property
+        try:
+            from sa import selftest
+            summary = selftest.summary_for(prop)
+            rep.extra["selftest"] = summary
+            rep.instances["selftest_cases"] = summary["cases"]
+            rep.instances["selftest_mutants_detected"] = summary["mutants_detected"]
+            rep.instances["selftest_twins_silent"] = summary["twins_silent"]
+            for msg in summary["failures"]:
+                rep.error("selftest", msg[:80], f"checker self-test failed: {msg}")
+        except Exception as e:
+            rep.error("selftest", type(e).__name__, f"self-test could not run: {e}")
     return rep.finish(consulted, seed)
 
 
@@ -65,11 +78,6 @@ def main(argv=None) -> int:
             rc = 2
         if rc == 1 or (rc == 2 and worst == 0):
             worst = rc if worst != 1 else 1
-    if tier == "thorough" and worst == 0 and args.prop != "all" and not args.replay:
-        from sa import selftest
-        rc = selftest.run_for(props[0])
-        if rc != 0:
-            worst = 2
     return worst
 
 
